@@ -553,7 +553,7 @@ class TransactionResult:
             return {k: tuple(v) if isinstance(v,list) else v for k,v in item.items()}
 
         def packed_list2tuple(item:dict):
-            return {k: list(map(tuple,v)) if k != 'rewards' and isinstance(v[0],list) else v for k,v in item.items()}
+            return {k: [tuple(c) if isinstance(c,list) else c for c in v] if k != 'rewards' else v for k,v in item.items()}
 
         if version == 3:
             raise CobaException("Deprecated transaction format. Please revert to an older version of Coba to read it.")
